@@ -51,4 +51,17 @@ def IncVal.verify (s : IncVal) (tx : TxId) (start : Nat) : Verdict :=
 the set of included transaction hashes. -/
 def statefulCheck (ledger : List TxId) (tx : TxId) : Verdict := if ledger.contains tx then .dup else .ok
 
+/-- Verdict of the stateful validator: `ErrNoError`, `ErrDuplicatedTx`, `ErrUnknown`. -/
+inductive SVerdict where
+  | ok | dup | unknown
+  deriving DecidableEq, Repr
+
+/-- Stateful validation with a ledger lookup that can fail: `IsContainTransaction` answers from the in-memory
+transaction cache when the hash is there (`cached`: transactions of blocks committed since the ledger was opened),
+otherwise asks LevelDB, which fails when `storeOk = false`; a failed lookup is reported as `ErrUnknown`. -/
+def statefulCheckE (cached ledger : List TxId) (storeOk : Bool) (tx : TxId) : SVerdict :=
+  if cached.contains tx then .dup
+  else if !storeOk then .unknown
+  else if ledger.contains tx then .dup else .ok
+
 end Poly.Model.IncVal
